@@ -1109,6 +1109,10 @@ class FuncContains(ValueFunc):
         obj = args.get("obj")
         if obj.isList() or obj.isSet() or obj.isMap() or obj.isObject():
             return ValueBoolean.fromval(args.get("part") in obj.value)
+        if obj.isString():
+            return ValueBoolean.fromval(
+                obj.value.find(args.getString("part").value) != -1
+            )
         return ValueBoolean.fromval(
             str(obj).find(args.getString("part").value) != -1
         )
